@@ -190,6 +190,17 @@ fn check_faulty_write(conf: &AisleConf, golden: &[u8], faults: &[WriteFault], ou
         }
     };
     match w.hard_error_at {
+        // a flush that reported EINTR: the writer may retry (then everything must be there) or
+        // hand the error back (then what is there must be a prefix, as after any error)
+        None if w.flush_interrupted && res.as_ref().err().map(|e| e.kind()) == Some(std::io::ErrorKind::Interrupted) => {
+            if !golden.starts_with(&w.accepted) {
+                out.push(v("hard-fault-mishandled", format!("flush returned EINTR, write returned it, and the sink holds {:?}, which is not a prefix of the fault-free output {:?}", String::from_utf8_lossy(&w.accepted), String::from_utf8_lossy(golden))));
+            }
+            match write_golden(conf) {
+                Ok((g2, _)) if g2 == golden => {}
+                other => out.push(v("hard-fault-mishandled", format!("write after an interrupted flush differs from the fault-free output: {:?}", other.map(|x| x.0.len())))),
+            }
+        }
         None => {
             if res.is_err() || w.accepted != golden {
                 out.push(v("benign-fault-visible", format!("faults {:?}: result {:?}, sink holds {} bytes {:?}, fault-free output is {} bytes {:?}", w.fired_tags, res.as_ref().map_err(|e| e.kind()), w.accepted.len(), String::from_utf8_lossy(&w.accepted), golden.len(), String::from_utf8_lossy(golden))));
@@ -539,7 +550,7 @@ fn gen_write_faults(r: &mut Rng, calls: u32) -> Vec<WriteFault> {
             continue;
         }
         f.push(match r.below(9) {
-            0..=2 => WriteFault::Short { call, n: r.range(1, 3) as u32 },
+            0..=2 => WriteFault::Short { call, n: if r.chance(1, 4) { r.range(3, 40) } else { r.range(1, 3) } as u32 },
             3..=4 => WriteFault::Eintr { call },
             5 if !hard => {
                 hard = true;
@@ -555,6 +566,16 @@ fn gen_write_faults(r: &mut Rng, calls: u32) -> Vec<WriteFault> {
             }
             _ => WriteFault::Short { call, n: 1 },
         });
+    }
+    // sink modes and flush faults (they fire only if the writer flushes / writes vectored at all)
+    if r.chance(1, 4) {
+        f.push(WriteFault::Vectored);
+    }
+    if r.chance(1, 6) {
+        f.push(WriteFault::FlushEintr { flush: r.below(2) as u32 });
+    }
+    if !hard && r.chance(1, 12) {
+        f.push(WriteFault::FlushErr { flush: r.below(2) as u32, errkind: "StorageFull".to_string() });
     }
     f
 }
@@ -626,34 +647,74 @@ pub fn enumerate_write_faults(text: &str) -> Vec<AisleScenario> {
     if aisle::write(&conf, &mut w).is_err() {
         return v;
     }
-    let calls = w.calls;
-    // call boundaries: re-run with a recording writer to learn each call's length
-    struct Rec(Vec<usize>);
+    let _ = w.calls;
+    // call boundaries: re-run with a recording writer to learn each call's length, how often the
+    // writer flushes and whether it writes vectored (then everything is enumerated a second time
+    // for a sink that takes all slices of a vectored write at once)
+    struct Rec {
+        lens: Vec<usize>,
+        flushes: u32,
+        vectored_used: bool,
+        vectored_mode: bool,
+    }
     impl std::io::Write for Rec {
         fn write(&mut self, b: &[u8]) -> std::io::Result<usize> {
-            self.0.push(b.len());
+            self.lens.push(b.len());
             Ok(b.len())
         }
+        fn write_vectored(&mut self, bufs: &[std::io::IoSlice<'_>]) -> std::io::Result<usize> {
+            self.vectored_used = true;
+            if self.vectored_mode {
+                let n = bufs.iter().map(|b| b.len()).sum();
+                self.write(&vec![0u8; n])
+            } else {
+                let buf = bufs.iter().find(|b| !b.is_empty()).map_or(&[][..], |b| &**b);
+                self.write(buf)
+            }
+        }
         fn flush(&mut self) -> std::io::Result<()> {
+            self.flushes += 1;
             Ok(())
         }
     }
-    let mut rec = Rec(Vec::new());
-    let _ = aisle::write(&conf, &mut rec);
     let mk = |faults: Vec<WriteFault>| AisleScenario { text: text.to_string(), hash_seed: 1, ops_a: vec![AisleOp::Lookup, AisleOp::Write { faults }, AisleOp::Reparse], ops_b: vec![], other_text: None, ops_c: vec![], order: vec![] };
-    for c in 0..calls {
-        v.push(mk(vec![WriteFault::WouldBlock { call: c }]));
-        v.push(mk(vec![WriteFault::Zero { call: c }]));
-        v.push(mk(vec![WriteFault::IoErr { call: c, errkind: "StorageFull".into() }]));
-        v.push(mk(vec![WriteFault::Eintr { call: c }]));
-        let len = rec.0.get(c as usize).copied().unwrap_or(1);
-        for n in 1..len {
-            v.push(mk(vec![WriteFault::Short { call: c, n: n as u32 }]));
+    let mut vectored_used = false;
+    for vectored_mode in [false, true] {
+        if vectored_mode && !vectored_used {
+            break;
         }
-        // short write followed by a hard error on the retry
-        if len > 1 {
-            v.push(mk(vec![WriteFault::Short { call: c, n: 1 }, WriteFault::IoErr { call: c + 1, errkind: "BrokenPipe".into() }]));
-            v.push(mk(vec![WriteFault::Eintr { call: c }, WriteFault::Short { call: c + 1, n: 1 }, WriteFault::Eintr { call: c + 2 }]));
+        let mut rec = Rec { lens: Vec::new(), flushes: 0, vectored_used: false, vectored_mode };
+        let _ = aisle::write(&conf, &mut rec);
+        vectored_used = rec.vectored_used;
+        let with_mode = |mut f: Vec<WriteFault>| {
+            if vectored_mode {
+                f.push(WriteFault::Vectored);
+            }
+            f
+        };
+        for c in 0..rec.lens.len() as u32 {
+            v.push(mk(with_mode(vec![WriteFault::WouldBlock { call: c }])));
+            v.push(mk(with_mode(vec![WriteFault::Zero { call: c }])));
+            v.push(mk(with_mode(vec![WriteFault::IoErr { call: c, errkind: "StorageFull".into() }])));
+            v.push(mk(with_mode(vec![WriteFault::Eintr { call: c }])));
+            let len = rec.lens.get(c as usize).copied().unwrap_or(1);
+            for n in 1..len {
+                v.push(mk(with_mode(vec![WriteFault::Short { call: c, n: n as u32 }])));
+            }
+            // short write followed by a hard error on the retry
+            if len > 1 {
+                v.push(mk(with_mode(vec![WriteFault::Short { call: c, n: 1 }, WriteFault::IoErr { call: c + 1, errkind: "BrokenPipe".into() }])));
+                v.push(mk(with_mode(vec![WriteFault::Eintr { call: c }, WriteFault::Short { call: c + 1, n: 1 }, WriteFault::Eintr { call: c + 2 }])));
+            }
+        }
+        for fl in 0..rec.flushes {
+            v.push(mk(with_mode(vec![WriteFault::FlushEintr { flush: fl }])));
+            v.push(mk(with_mode(vec![WriteFault::FlushEintr { flush: fl }, WriteFault::FlushEintr { flush: fl + 1 }])));
+            v.push(mk(with_mode(vec![WriteFault::FlushErr { flush: fl, errkind: "StorageFull".into() }])));
+            // an interrupted flush after a short last write
+            if let Some(last) = rec.lens.len().checked_sub(1) {
+                v.push(mk(with_mode(vec![WriteFault::Short { call: last as u32, n: 1 }, WriteFault::FlushEintr { flush: fl }])));
+            }
         }
     }
     v
